@@ -135,6 +135,10 @@ func runC11(c C11Case, info *kit.Info) *kit.Finding {
 			for i, spec := range c.Relays {
 				cn, err := net.DialTimeout("tcp", addr, 3*time.Second)
 				if err != nil {
+					if kit.EnvNetError(err) {
+						info.Skipped = "host out of ports: " + err.Error()
+						return nil
+					}
 					return kit.Violation("reload:refused", "cannot open relay %d before any reload: %v", i, err)
 				}
 				rl := &relay{spec: spec, cl: cn.(*net.TCPConn), local: cn.LocalAddr().String()}
@@ -185,6 +189,10 @@ func runC11(c C11Case, info *kit.Info) *kit.Finding {
 				rec := c11Conn{start: time.Now()}
 				cn, err := net.DialTimeout("tcp", addr, 5*time.Second)
 				if err != nil {
+					if kit.EnvNetError(err) {
+						time.Sleep(time.Millisecond)
+						continue // host out of ports: not the server's doing
+					}
 					rec.err, rec.end = "dial: "+err.Error(), time.Now()
 				} else {
 					rec.local = cn.LocalAddr().String()
